@@ -144,12 +144,16 @@ theorem step_obs {sh : Shared} {th : Thread} {o : Out} (h : step sh th = some o)
   · -- lock
     rename_i r a hpc
     split at h
-    · cases h
-      refine ⟨rfl, by simp, ?_⟩
-      intro _ h2
-      cases a
-      · simp [Obs.isAsyncEnter]
-      · exact absurd hpc (h2 r)
+    · split at h
+      · split at h
+        · cases h; simp
+        · cases h; simp
+      · cases h
+        refine ⟨rfl, by simp, ?_⟩
+        intro _ h2
+        cases a
+        · simp [Obs.isAsyncEnter]
+        · exact absurd hpc (h2 r)
     · cases h
   · -- enter
     split at h
@@ -206,6 +210,7 @@ theorem StepR.cancelled {sh th o} (h : StepR sh th o) : ∃ ks, o.sh.cancelled =
   case claimed hsh => exact ⟨[], hsh.cancelled⟩
   case spawn hsh => exact ⟨[], hsh.cancelled⟩
   case exit hsh => exact ⟨[], hsh.cancelled⟩
+  case lockDeadSync hsh => exact ⟨[], hsh.cancelled⟩
   all_goals exact ⟨[], by simp⟩
 
 /-- a cancelled context stays cancelled -/
@@ -225,7 +230,7 @@ def theEnter (j : Job) : List Obs := [Obs.enter j.reg.rid j.ty j.v true]
 /-- async goroutine started for `j`, parked at `pc` with activations `fr`, having produced the async entries `l` -/
 def JobTr (sh : Shared) (j : Job) (fr : List Frame) (l : List Obs) : Pc → Prop
   | .astart | .turn => l = []
-  | .lock r true => l = [] ∧ r = j.reg ∧ ∃ f fs, fr = f :: fs ∧ f.ty = j.ty ∧ f.v = j.v
+  | .lock r true => l = [] ∧ r = j.reg ∧ ∃ f, fr = [f] ∧ f.ty = j.ty ∧ f.v = j.v ∧ f.ctx = j.ctx
   | .aend | .done => l = theEnter j ∨ (l = [] ∧ sh.live j.ctx = false)
   | _ => l = theEnter j
 
@@ -277,6 +282,7 @@ theorem StepR.job {sh th o} (h : StepR sh th o) : o.th.job = th.job := by
   case claimed hsh => exact hsh.job
   case spawn hsh => exact hsh.job
   case exit hsh => exact hsh.job
+  case lockDeadSync hsh => exact hsh.job
   all_goals rfl
 
 /-- the pcs the dispatch loop stops at are all "inside the delivery" -/
@@ -310,6 +316,7 @@ theorem ThTr.step {sh : Shared} {th : Thread} {o : Out} {l : List Obs} (hs : ste
     case claimed hsh => exact ⟨hsh.running.1, hsh.running.2.2.2.2⟩
     case spawn hsh => exact ⟨hsh.running.1, hsh.running.2.2.2.2⟩
     case exit hsh => exact ⟨hsh.running.1, hsh.running.2.2.2.2⟩
+    case lockDeadSync hsh => exact ⟨hsh.running.1, hsh.running.2.2.2.2⟩
     all_goals simp_all
   | some j =>
     rw [hj] at hI
@@ -333,13 +340,33 @@ theorem ThTr.step {sh : Shared} {th : Thread} {o : Out} {l : List Obs} (hs : ste
       exact run hsh.running (by simpa [hpc, JobTr] using hI) (hq (by simp [hpc]) (by simp [hpc]))
     case exit hpc hfr hj' hsh =>
       exact run hsh.running (by simpa [hpc, JobTr] using hI) (hq (by simp [hpc]) (by simp [hpc]))
-    case lock r a f fs hpc hfr hfree =>
+    case lockDeadSync r a f fs hpc hfr hj' hfree hl hsh =>
+      cases a
+      · exact run hsh.running (by simpa [hpc, JobTr] using hI) (hq (by simp [hpc]) (by simp [hpc]))
+      · have hI' : l = [] ∧ r = j.reg ∧ ∃ f', th.frames = [f'] ∧ f'.ty = j.ty ∧ f'.v = j.v ∧ f'.ctx = j.ctx := by
+          simpa [hpc, JobTr] using hI
+        obtain ⟨_, _, f', h3, _⟩ := hI'
+        rw [hfr] at h3; cases h3
+        rcases hj' with hj' | hj'
+        · rw [hj] at hj'; cases hj'
+        · exact absurd rfl hj'
+    case lockDeadJob r a j' f hpc hj' hfr hfree hl =>
+      rw [hj] at hj'; cases hj'
+      cases a
+      · have hl' : l = theEnter j := by simpa [hpc, JobTr] using hI
+        exact .inl (by simp [hl'])
+      · have hI' : l = [] ∧ r = j.reg ∧ ∃ f', th.frames = [f'] ∧ f'.ty = j.ty ∧ f'.v = j.v ∧ f'.ctx = j.ctx := by
+          simpa [hpc, JobTr] using hI
+        obtain ⟨h1, _, f', h3, _, _, h6⟩ := hI'
+        rw [hfr] at h3; cases h3
+        exact .inr ⟨by simp [h1], by rw [← h6]; exact (live_congr rfl _).trans hl⟩
+    case lock r a f fs hpc hfr hfree hl =>
       cases a
       · have hl : l = theEnter j := by simpa [hpc, JobTr] using hI
         simp [JobTr, hl, Obs.isAsyncEnter]
-      · have hl : l = [] ∧ r = j.reg ∧ ∃ f' fs', th.frames = f' :: fs' ∧ f'.ty = j.ty ∧ f'.v = j.v := by
+      · have hl : l = [] ∧ r = j.reg ∧ ∃ f', th.frames = [f'] ∧ f'.ty = j.ty ∧ f'.v = j.v ∧ f'.ctx = j.ctx := by
           simpa [hpc, JobTr] using hI
-        obtain ⟨h1, h2, f', fs', h3, h4, h5⟩ := hl
+        obtain ⟨h1, h2, f', h3, h4, h5, _⟩ := hl
         rw [hfr] at h3; cases h3
         simp [JobTr, h1, h2, h4, h5, Obs.isAsyncEnter, theEnter]
     case turnDead j' hpc hj' hturn hl =>
